@@ -119,7 +119,10 @@ def gen(rng, tier, idx):
                         if not stacks[ty]:
                             g.mark(t, "push", ty, 5)
                             stacks[ty].append(5)
-                        g.mark(t, "pop", ty, stacks[ty][-1] + 1)
+                        g.mark(t, "pop", ty, stacks[ty][-1] + r.choice([1, 1, 2 ** 32, -2 ** 32, 2 ** 33, 2 ** 40]))
+                        # the program goes on as if the pop had worked, so that an emulator that lets it pass
+                        # finds nothing else to object to
+                        stacks[ty].pop()
                         fault_done = True
                 elif fault == "zero":
                     g.mark(t, "push" if d["stack"] else "set", ty, 0)
